@@ -27,6 +27,11 @@ CHECKS = {
   "design_ref": "DESIGN.md section 3 C12",
   "note": TRUST + " One open finding (an initarg shared by two slots) is matched by its exact shape only; everything else about those histories is still judged.",
   "technique": "TLA+ reference, TLC-generated behaviours replayed into the code (transition cover + simulation)"},
+ "C13": {
+  "text": "Model-based conformance with trace acceptance: Packages.tla is the reference (use/export graph + own definitions; resolution recomputed from the graph; design invariants OwnWins / NothingFromNowhere checked by TLC); TLC emits one history of use/unuse/export/unexport/def/undef/in-package per transition of the bounded state graph of the reference and of an implementation-shaped twin of the denormalised package tables (VIEW includes the table residue); each history is executed against slip with fresh packages and the full resolution matrix from every package plus pkg:name / pkg::name access is judged by the TLA+ acceptor PackagesTrace under TLC (candidate sets where the statement leaves the landing place of a definition open).",
+  "design_ref": "DESIGN.md section 3 C13",
+  "note": TRUST + " One open finding (a package exporting a name it never defines while using a package that exports the same name) is matched by a feature predicate of the specification.",
+  "technique": "TLA+ reference + implementation-shaped twin (TLC), transition cover replayed into the code, TLA+ trace acceptor"},
  "C11": {
   "text": "Model-based conformance: Flavors.tla recomputes precedence, daemon order and variable inheritance from the definitions (order-independent by construction; design invariants checked by TLC); TLC's interleavings of defflavor/defmethod/defwhopper are the histories (exhaustive to the stated depth, random walks beyond); each is executed against slip and precedence list, daemon trace of a send, variable default/accessor/init keyword of every defined flavor are compared with the values TLC computed.",
   "design_ref": "DESIGN.md section 3 C11",
